@@ -33,7 +33,16 @@ type placement struct {
 // floats handed to the library.
 func exactPlacement(rng *rand.Rand) *placement {
 	pl := &placement{exact: true, scale: 1, cos: 1}
-	switch rng.Intn(6) {
+	switch rng.Intn(7) {
+	case 6:
+		// extreme units: coordinates around 1e-90 or 1e+90 (squares of lengths are still ordinary
+		// floating-point numbers, fourth powers are not)
+		k := 250 + rng.Intn(80)
+		if rng.Intn(2) == 0 {
+			k = -k
+		}
+		pl.scale = math.Ldexp(1, k)
+		pl.desc = fmt.Sprintf("scale 2^%d", k)
 	case 0, 1:
 		pl.desc = "identity"
 	case 2:
